@@ -13,7 +13,7 @@ LEVEL = "exploration"
 DESIGN_REF = "DESIGN.md section 5, C04"
 RULE = (
     "Model-based generation of Simulator histories over linear compartmental networks x'=A(p)x+b(p) (1-3 variables, "
-    "mass-action rates): 2-10 operations from simulate(t_end, steps), simulate_time_course(points), simulate_protocol, "
+    "mass-action rates; one third with an influx k*time, i.e. a model that reads the absolute time): 2-10 operations from simulate(t_end, steps), simulate_time_course(points), simulate_protocol, "
     "simulate_protocol_time_course, update/scale_parameter, update_variable(s), simulate_to_steady_state, clear_results; "
     "end times and time points are drawn relative to the time already reached (later, much later, equal, earlier, "
     "overlapping). Oracle: augmented matrix exponential (scipy.linalg.expm) from each segment's start state under the "
@@ -95,6 +95,13 @@ def _case(draw):
     lin = draw(linear.lin_strategy())
     n = draw(st.integers(2, 10))
     ops = [draw(_op()) for _ in range(n)]
+    if draw(st.integers(0, 2)) == 0:
+        # a model that reads `time` (x' = A x + b + c t): no steady state, every other operation applies
+        lin = {**lin, "ramp": {str(draw(st.integers(0, lin["n"] - 1))): draw(st.sampled_from([0.25, 0.5, 1.0, 2.0]))}}
+        for op in ops:
+            if op["op"] == "steady_state":
+                op.clear()
+                op.update({"op": "simulate", "rel": "later", "dt": draw(_dt), "steps": draw(st.one_of(st.none(), st.integers(1, 6)))})
     return {"lin": lin, "ops": ops}
 
 
@@ -172,6 +179,7 @@ def examine(case: dict, ctx) -> Outcome:
                 bad(f"{opname}:{last_ctx}:columns", got=list(df.columns))
             rows = list(zip(times, vals))
             A, b = linear.A_b(lin, es["params"])
+            c = linear.ramp_vec(lin, es["params"])
             # start row of a fresh / cleared simulator
             if fresh and es.get("kind") == "steady":
                 # a steady-state run reports only the steady state, no start row
@@ -227,9 +235,9 @@ def examine(case: dict, ctx) -> Outcome:
             if not _tclose(rows[-1][0], es["end"]):
                 bad(f"{opname}:{last_ctx}:segment-end", got=rows[-1][0], want=es["end"])
             for tr, yr in rows:
-                want = linear.propagate(A, b, y, tr - t)
+                want = linear.propagate(A, b, y, tr - t, c, t)
                 if not np.all(np.abs(yr - want) <= 1e-6 * (1 + np.abs(want).max())):
-                    bad(f"{opname}:{last_ctx}:state-not-exact-propagation", time=tr, got=yr.tolist(), want=want.tolist(), start=y.tolist(), t_start=t)
+                    bad(f"{opname}:{last_ctx}:state-not-exact-propagation" + (":model-reads-time" if np.any(c) else ""), time=tr, got=yr.tolist(), want=want.tolist(), start=y.tolist(), t_start=t)
             # parameters recorded for the segment
             rp = rps[nseg + k]
             for pn in pnames:
@@ -299,13 +307,13 @@ def examine(case: dict, ctx) -> Outcome:
             elif k in ("protocol", "protocol_tc"):
                 steps = [[d, {pnames[int(i) % len(pnames)]: v for i, v in pv.items()}] for d, pv in op["steps"]]
                 proto = make_protocol([(d, pv) for d, pv in steps])
-                # boundaries in the documented pandas Timedelta arithmetic (pandas is trusted base)
-                import pandas as pd
-
+                # boundaries: time reached + the step's offset in seconds
+                # (pandas: the scalar Timedelta.total_seconds() and the vectorised TimedeltaIndex.total_seconds() differ
+                #  by up to 1e-6 s; each entry point is compared in the arithmetic it documents / uses)
                 if k == "protocol":
                     bounds = [t + x.total_seconds() for x in proto.index]
                 else:
-                    bounds = [float(x) for x in (proto.index + pd.Timedelta(t, unit="s")).total_seconds()]
+                    bounds = [float(x) for x in (proto.index.total_seconds() + t)]
                 if k == "protocol":
                     trace.append([k, len(steps), last_ctx])
                     try:
@@ -406,6 +414,10 @@ def examine(case: dict, ctx) -> Outcome:
     except _Stop:
         pass
     out.classes = [f"flag:{k}" for k, v in flags.items() if v] + [f"op:{x[0]}" for x in trace]
+    if lin.get("ramp"):
+        out.classes.append("time_dependent_model")
+        if flags["override_after_sim"]:
+            out.classes.append("time_dependent_model+override_after_sim")
     if nres >= 2 and any(flags.values()):
         out.nontrivial = trace
     out.sample = {"network": {k: lin[k] for k in ("n", "conv")}, "history": trace}
@@ -414,7 +426,7 @@ def examine(case: dict, ctx) -> Outcome:
 
 def floors(ctx) -> list[str]:
     c = []
-    for k in ["flag:override_after_sim", "flag:param_change_between", "flag:steady_then_op", "flag:illegal_end", "flag:overlap"]:
+    for k in ["flag:override_after_sim", "flag:param_change_between", "flag:steady_then_op", "flag:illegal_end", "flag:overlap", "time_dependent_model+override_after_sim"]:
         if ctx.classes.get(k, 0) < max(3, ctx.evaluations // 40):
             c.append(f"class {k} only {ctx.classes.get(k, 0)}/{ctx.evaluations}")
     return c
